@@ -242,7 +242,9 @@ def rw_drop_prints(text):
 
 
 def rw_env_cache(text):
-    return re.subn(r"crate::env_cache::\w+\(\)", "false", text)
+    text, c1 = re.subn(r"crate::env_cache::\w+\(\)", "false", text)
+    text, c2 = re.subn(r'std::env::var\("RAGC_[A-Z_]*"\)\.is_ok\(\)', "false", text)
+    return text, c1 + c2
 
 
 def rw_drop_cfg_verbose(text):
@@ -312,6 +314,15 @@ def rw_for_ref_pattern(text):
         cnt += 1
         x, e = m.group(1), m.group(2)
         return "let mut __r_%s: usize = %s.len(); while __r_%s > 0 { __r_%s -= 1; let %s = %s[__r_%s];" % (x, e, x, x, x, e, x)
+    pat5 = re.compile(r"for\s+&\(([^)]*)\)\s+in\s+(&?[\w\.]+?)(?:\.iter\(\))?\s*\{")
+
+    def r5(m):
+        nonlocal cnt
+        cnt += 1
+        e = m.group(2).lstrip("&")
+        tag = re.sub(r"\W", "", m.group(1).split(",")[0])
+        return "for __i_%s in 0..%s.len() { let (%s) = %s[__i_%s];" % (tag, e, m.group(1), e, tag)
+    text = pat5.sub(r5, text)
     text = pat4.sub(r4, text)
     text = pat1.sub(r1, text)
     text = pat3.sub(r3, text)
@@ -380,7 +391,7 @@ GENERIC = [
     ("drop function-local `use crate::..;` imports", rw_drop_crate_use),
     ("drop #[cfg(feature=..)]-guarded debug statements", rw_drop_cfg_verbose),
     ("drop eprintln!/println! statements", rw_drop_prints),
-    ("crate::env_cache::*() debug switches -> false", rw_env_cache),
+    ("crate::env_cache::*() and std::env::var(\"RAGC_*\").is_ok() debug switches -> false", rw_env_cache),
     ("drop dead `if <debug switch> { .. }` blocks", rw_drop_if_debug),
     ("anyhow::bail!(..) -> return Err(AnyErr); anyhow!(..) -> AnyErr", rw_anyhow),
     ("for &x in slice / for (i,&x) in slice.iter().enumerate() -> indexed loop; for &x in v.iter().rev() -> reverse index while-loop", rw_for_ref_pattern),
